@@ -216,6 +216,14 @@ class SymFactory:
     def method(self, obj, name, *args, **kwargs):
         return self.interp.call(self.interp.getattr(obj, name), list(args), kwargs)
 
+    def setattr(self, obj, name, value):
+        self.interp.setattr(obj, name, value)
+
+    def add(self, a, b):
+        import ast as _ast
+
+        return self.interp.binop(_ast.Add, a, b)
+
     def isinstance(self, v, cls):
         return issubclass(pytype(v), cls)
 
@@ -330,6 +338,12 @@ class NativeFactory:
 
     def method(self, obj, name, *args, **kwargs):
         return getattr(obj, name)(*args, **kwargs)
+
+    def setattr(self, obj, name, value):
+        setattr(obj, name, value)
+
+    def add(self, a, b):
+        return a + b
 
     def isinstance(self, v, cls):
         return isinstance(v, cls)
